@@ -1,39 +1,73 @@
 #!/bin/bash
 # Re-runs the quick check of the targeted property against every confirmed seeded change under
-# /verif/seeded/, WITHOUT touching /repo: a scratch worktree of /repo and a scratch copy of the harness
-# (path dependencies rewritten) are created under /tmp/seedregress and removed afterwards.
-# Prints one line per change and writes /verif/seeded/REGRESS.txt. Use after changing the harness.
+# /verif/seeded/ (sub-agent changes and real-F-* = reverted fix commits), WITHOUT touching /repo:
+# W parallel workers, each with a scratch worktree of /repo and a scratch copy of the harness (path
+# dependencies rewritten) under /tmp/seedregress/w<i>, removed afterwards.
+#   tools_seed_regress.sh [name-prefix ...]     (default: all)
+# Prints one line per change, writes /verif/seeded/REGRESS.txt (only for a complete run) and keeps
+# the shrunk replay of each detection as /verif/seeded/<name>/replay.json.
+# For real-F-* the scratch root has NO regression tapes, so a detection there is a detection by
+# search; their replays are the source of /verif/regress/ (see tools_regress_update.py).
 set -u
 S=/tmp/seedregress
+W="${SEED_WORKERS:-4}"
+pkill -f "$S/w" 2>/dev/null
+for d in "$S"/w*/repo; do [ -d "$d" ] && git -C /repo worktree remove --force "$d" 2>/dev/null; done
 rm -rf "$S"; git -C /repo worktree prune
-mkdir -p "$S/root"
-git -C /repo worktree add -q --detach "$S/repo" HEAD || exit 2
-rsync -a --exclude target --exclude target-fp --exclude '*.log' /verif/harness/ "$S/harness/"
-sed -i "s#/repo#$S/repo#g" "$S/harness/Cargo.toml" "$S/harness/build.rs"
-cp /verif/known_findings.json "$S/root/"; cp -r /verif/regress "$S/root/regress"; mkdir -p "$S/root/evidence" "$S/root/replays"
-export CARGO_NET_OFFLINE=true VERIF_ROOT="$S/root"
+mkdir -p "$S"
+export CARGO_NET_OFFLINE=true
 unset CARGO_TARGET_DIR
-export EGVERIF_BIN="$S/harness/target/release/egverif" EGVERIF_FP_BIN="$S/harness/target-fp/release/egverif"
-build() {
-  ( cd "$S/harness" && cargo build --release --offline -q --target-dir target 2>"$S/build.log" && cargo build --release --offline -q --features fixed_point --target-dir target-fp 2>"$S/build-fp.log" )
-}
-build || { echo "scratch build failed"; tail -20 "$S/build.log"; exit 2; }
-OUT=/verif/seeded/REGRESS.txt
-: > "$OUT"
-MISS=0
+ALL=()
 for D in /verif/seeded/*/; do
   N=$(basename "$D")
-  [ -f "$D/patch.diff" ] || continue
-  P=$(python3 -c "import json;print(json.load(open('$D/meta.json'))['property'])")
-  if ! git -C "$S/repo" apply "$D/patch.diff" 2>/dev/null; then echo "$N $P patch does not apply to the current tree" | tee -a "$OUT"; continue; fi
-  if build; then
-    LOG=$("$EGVERIF_BIN" run "$P" quick 2>&1); RC=$?
-    SIG=$(echo "$LOG" | grep -m1 "^violation in " | sed 's/^violation in //' | cut -c1-110)
-    if [ $RC -eq 1 ]; then echo "$N $P DETECTED $SIG" | tee -a "$OUT"; else echo "$N $P NOT-DETECTED rc=$RC" | tee -a "$OUT"; MISS=$((MISS+1)); fi
-  else
-    echo "$N $P does not build with the current tree" | tee -a "$OUT"
+  [ -f "$D/patch.diff" ] && [ -f "$D/meta.json" ] || continue
+  if [ $# -gt 0 ]; then
+    ok=no; for pre in "$@"; do case "$N" in "$pre"*) ok=yes ;; esac; done
+    [ $ok = yes ] || continue
   fi
-  git -C "$S/repo" checkout -q -- .
+  ALL+=("$N")
 done
-git -C /repo worktree remove --force "$S/repo"; rm -rf "$S"
-echo "not detected: $MISS" | tee -a "$OUT"
+echo "${#ALL[@]} change(s), $W worker(s)"
+
+worker() {
+  local i=$1; local R="$S/w$i"
+  mkdir -p "$R/root/evidence" "$R/root/replays" "$R/root-noregress/evidence" "$R/root-noregress/replays" "$R/root-noregress/regress"
+  git -C /repo worktree add -q --detach "$R/repo" HEAD || return 2
+  rsync -a --exclude target --exclude target-fp --exclude '*.log' /verif/harness/ "$R/harness/"
+  sed -i "s#/repo#$R/repo#g" "$R/harness/Cargo.toml" "$R/harness/build.rs"
+  cp /verif/known_findings.json "$R/root/"; cp /verif/known_findings.json "$R/root-noregress/"; cp -r /verif/regress "$R/root/regress"
+  local BIN="$R/harness/target/release/egverif" FPBIN="$R/harness/target-fp/release/egverif"
+  local k=0
+  for N in "${ALL[@]}"; do
+    k=$((k+1)); [ $(( (k-1) % W )) -eq $i ] || continue
+    local D=/verif/seeded/$N
+    local P; P=$(python3 -c "import json;print(json.load(open('$D/meta.json'))['property'])")
+    if ! git -C "$R/repo" apply "$D/patch.diff" 2>/dev/null; then echo "$N $P patch does not apply to the current tree" >> "$S/out.$i"; continue; fi
+    if ( cd "$R/harness" && cargo build --release --offline -q -j $((16 / W)) --target-dir target 2>"$R/build.log" && cargo build --release --offline -q -j $((16 / W)) --features fixed_point --target-dir target-fp 2>"$R/build-fp.log" ); then
+      local ROOT="$R/root"; case "$N" in real-*) ROOT="$R/root-noregress" ;; esac
+      rm -f "$ROOT/replays/"*.json
+      local LOG RC SIG RP
+      LOG=$(VERIF_ROOT="$ROOT" EGVERIF_BIN="$BIN" EGVERIF_FP_BIN="$FPBIN" VERIF_THREADS=$((16 / W)) "$BIN" run "$P" quick 2>&1); RC=$?
+      SIG=$(echo "$LOG" | grep -m1 "^violation in " | sed 's/^violation in //' | cut -c1-110)
+      RP=$(echo "$LOG" | grep -m1 "^VIOLATION property=" | sed 's/.*replay=//')
+      if [ $RC -eq 1 ]; then
+        echo "$N $P DETECTED $SIG" >> "$S/out.$i"
+        [ -n "$RP" ] && [ -f "$RP" ] && cp "$RP" "$D/replay.json"
+      else
+        echo "$N $P NOT-DETECTED rc=$RC" >> "$S/out.$i"
+      fi
+    else
+      echo "$N $P does not build with the current tree" >> "$S/out.$i"
+    fi
+    git -C "$R/repo" checkout -q -- .
+  done
+  git -C /repo worktree remove --force "$R/repo"
+}
+for i in $(seq 0 $((W-1))); do worker $i & done
+wait
+cat "$S"/out.* 2>/dev/null | sort > "$S/all.txt"
+cat "$S/all.txt"
+MISS=$(grep -vc " DETECTED " "$S/all.txt")
+echo "not detected: $MISS"
+if [ $# -eq 0 ]; then { cat "$S/all.txt"; echo "not detected: $MISS"; } > /verif/seeded/REGRESS.txt; fi
+rm -rf "$S"; git -C /repo worktree prune
